@@ -1215,6 +1215,7 @@ static bool run_sweep(const Plan &p, vector<Viol> &viols, Plan &derived) {
         for (int i : order) { string a = string("u@m.") + shim_tld_name(i); int x, y, z; call(a, x, y, z); warm.push_back(a); warm_out[i] = { x, y, z }; }
     }
     long nprobes = 20000; bool found = false; string bad, extra_before; char b[320];
+    vector<std::pair<string, string>> revalidated;      // (real TLD address, the unknown neighbour probed just before it)
     static const char AL[] = "abcdefghijklmnopqrstuvwxyz0123456789-";
     for (long i = 0; ok && i < nprobes && !found; i++) {
         string l; unsigned k = (unsigned)sim_below(&r, 4); int from = -1;
@@ -1231,6 +1232,7 @@ static bool run_sweep(const Plan &p, vector<Viol> &viols, Plan &derived) {
         } else if (from >= 0) {
             // the unknown neighbour of a real TLD was just looked up: the real one must still be decided as in the warm-up
             string t = string("u@m.") + shim_tld_name(from); int r2, e2, c2; call(t, r2, e2, c2); g_sweep_probes++;
+            revalidated.push_back({ t, "u@m." + l });       // part of the history a later discrepancy may depend on
             if (r2 != warm_out[from][0] || e2 != warm_out[from][1] || c2 != warm_out[from][2]) {
                 found = true; bad = t; extra_before = "u@m." + l;
                 snprintf(b, sizeof b, "' (right after its unknown neighbour '%s'): ret=%d errcode=%d rc=%d, in the warm-up: ret=%d errcode=%d rc=%d", l.c_str(), r2, e2, c2, warm_out[from][0], warm_out[from][1], warm_out[from][2]);
@@ -1247,6 +1249,9 @@ static bool run_sweep(const Plan &p, vector<Viol> &viols, Plan &derived) {
     Op s; s.k = SETUP; derived.ops.push_back(s);
     Op t; t.k = SET_TLD; t.v = 1; derived.ops.push_back(t);
     for (auto &w : warm) { Op o; o.k = IS_EMAIL; o.a = w; derived.ops.push_back(o); }
+    // every validation of a KNOWN label made since (they hit, and refresh, whatever the library remembers); the unknown probes
+    // in between are left out - tens of thousands - and the ordinary executor has the last word on whether that matters
+    for (auto &rv : revalidated) { if (rv.first == bad && rv.second == extra_before) break; Op o; o.k = IS_EMAIL; o.a = rv.first; derived.ops.push_back(o); }
     if (!extra_before.empty()) { Op o; o.k = IS_EMAIL; o.a = extra_before; derived.ops.push_back(o); }
     Op pr; pr.k = IS_EMAIL; pr.a = bad; derived.ops.push_back(pr);
     return true;
